@@ -64,6 +64,7 @@ type runtime struct {
 	random       func() float64
 	labels       []string
 	stackLimit   int
+	evalDepth    int // direct evals in progress (they enter no scope of their own)
 	traceLimit   int
 	lck          sync.Mutex
 	verif        verifRT
